@@ -126,7 +126,7 @@ def run(tier):
     cases = corpus.generate(rep, [("update_at", ["a", "b"], lens, 2, 3)])
     rep.exhaustive = True
     if tier == "quick":
-        cases = cases[::9]          # stride coprime to the enumeration periods: every target / coordinate / update shape still occurs
+        cases = cases[::17]         # stride coprime to the enumeration periods: every target / coordinate / update shape still occurs
     items = [{"case": c, "seed": common.seed() * 7919 + i, "nrandom": 1 if tier == "quick" else 4} for i, c in enumerate(cases)]
     results = common.parallel_map("run_chunk", sys.modules[__name__], items)
     for it, r in zip(items, results):
